@@ -63,6 +63,17 @@ theorem has_debit {cx : NumCtx} {w w' : Wallet} {k : String} {a : Rat} {neg : Bo
   · cases hd
   · cases hd
 
+theorem has_debit2 {cx : NumCtx} {w w' : Wallet} {k1 k2 : String} {a1 a2 : Rat} {neg : Bool}
+    (hd : debit2 cx w k1 a1 k2 a2 neg = .ok w') (k' : String) (h : Has w k' ∨ k' = k1 ∨ k' = k2) : Has w' k' := by
+  unfold debit2 at hd
+  split at hd
+  · cases hd
+  · rename_i w1 h1
+    rcases h with h | h | h
+    · exact has_debit hd _ (Or.inl (has_debit h1 _ (Or.inl h)))
+    · exact has_debit hd _ (Or.inl (has_debit h1 _ (Or.inr h)))
+    · exact has_debit hd _ (Or.inr h)
+
 theorem balanceOf_of_has {w : Wallet} {k : String} (h : Has w k) : ∃ b, balanceOf w k = .ok b := by
   unfold Has at h; unfold balanceOf
   cases hg : AList.get? w k with
